@@ -28,9 +28,11 @@ type access struct {
 	strct, field, fn string
 	line             int
 	write            bool
-	how              string // plain | atomic | lockop | chan
+	how              string // plain | atomic | lockop | chan | call
 	held             []string
 	inLiteral        bool
+	method           string // for how == "call" through a field's value: the method invoked ("" for a function-valued field)
+	async            bool   // the access sits inside a `go func() { ... }()` literal: it runs on a goroutine of its own
 }
 
 type structInfo struct {
@@ -99,6 +101,19 @@ func lockTable(fset *token.FileSet, files []*ast.File) string {
 			}
 		}
 	}
+	methodsByName = map[string][]string{}
+	packageFuncs = map[string]bool{}
+	for _, f := range files {
+		for _, d := range f.Decls {
+			if fd, ok := d.(*ast.FuncDecl); ok && fd.Body != nil {
+				if fd.Recv != nil && len(fd.Recv.List) > 0 {
+					methodsByName[fd.Name.Name] = append(methodsByName[fd.Name.Name], baseTypeName(fd.Recv.List[0].Type))
+				} else {
+					packageFuncs[fd.Name.Name] = true
+				}
+			}
+		}
+	}
 	var accs []access
 	for _, f := range files {
 		for _, d := range f.Decls {
@@ -129,6 +144,17 @@ func lockTable(fset *token.FileSet, files []*ast.File) string {
 	funcs := map[string]bool{}
 	for _, a := range accs {
 		funcs[a.fn] = true
+	}
+	var allSites []callSite
+	allSites = append(allSites, callSites...)
+	{
+		var typed []callSite
+		for _, c := range callSites {
+			if !c.byName && !packageFuncs[c.callee] {
+				typed = append(typed, c)
+			}
+		}
+		callSites = typed
 	}
 	for _, c := range callSites {
 		funcs[c.caller] = true
@@ -263,18 +289,44 @@ func lockTable(fset *token.FileSet, files []*ast.File) string {
 		}
 		return a.line < b.line
 	})
+	// function names get numeric ids: the kernel decides reachability over Nat, not over strings
+	fnSet := map[string]bool{}
+	for _, a := range accs {
+		fnSet[a.fn] = true
+	}
+	for _, c := range allSites {
+		fnSet[c.caller] = true
+		fnSet[c.callee] = true
+	}
+	var fnNames []string
+	for f := range fnSet {
+		fnNames = append(fnNames, f)
+	}
+	sort.Strings(fnNames)
+	fnID := map[string]int{}
+	for i, f := range fnNames {
+		fnID[f] = i
+	}
 	var b strings.Builder
 	b.WriteString("/- GENERATED by /verif/harness/extract (locks.go) from /repo's Go sources on every check. Do not edit. -/\n")
 	b.WriteString("namespace TunnelModel.Generated\n\n")
-	b.WriteString("structure Access where\n  strct : String\n  field : String\n  fn : String\n  write : Bool\n  how : String\n  held : List String\n  inLiteral : Bool\n  deriving Repr, DecidableEq\n\n")
+	b.WriteString("structure Access where\n  strct : String\n  field : String\n  fn : String\n  write : Bool\n  how : String\n  held : List String\n  inLiteral : Bool\n  method : String := \"\"\n  async : Bool := false\n  fnId : Nat := 0\n  deriving Repr, DecidableEq\n\n")
 	b.WriteString("def accessTable : List Access := [\n")
 	// de-duplicate identical rows (line numbers are not part of the obligation)
 	seen := map[string]bool{}
 	first := true
 	for _, a := range accs {
 		sort.Strings(a.held)
-		row := fmt.Sprintf("  { strct := %q, field := %q, fn := %q, write := %v, how := %q, held := [%s], inLiteral := %v }",
-			a.strct, a.field, a.fn, a.write, a.how, quoteAll(a.held), a.inLiteral)
+		extra := ""
+		if a.method != "" {
+			extra += fmt.Sprintf(", method := %q", a.method)
+		}
+		if a.async {
+			extra += ", async := true"
+		}
+		extra += fmt.Sprintf(", fnId := %d", fnID[a.fn])
+		row := fmt.Sprintf("  { strct := %q, field := %q, fn := %q, write := %v, how := %q, held := [%s], inLiteral := %v%s }",
+			a.strct, a.field, a.fn, a.write, a.how, quoteAll(a.held), a.inLiteral, extra)
 		if seen[row] {
 			continue
 		}
@@ -298,6 +350,34 @@ func lockTable(fset *token.FileSet, files []*ast.File) string {
 	}
 	sort.Strings(es)
 	b.WriteString(strings.Join(es, ",\n"))
+	b.WriteString("\n]\n\n")
+	// call edges (caller, callee, async): typed calls, calls of package functions, and calls through
+	// interfaces resolved by method name; async = the callee runs on a goroutine of its own
+	b.WriteString("def callEdges : List (String × String × Bool) := [\n")
+	ceSet := map[string]bool{}
+	for _, c := range allSites {
+		ceSet[fmt.Sprintf("  (%q, %q, %v)", c.caller, c.callee, c.async)] = true
+	}
+	var ces []string
+	for e := range ceSet {
+		ces = append(ces, e)
+	}
+	sort.Strings(ces)
+	b.WriteString(strings.Join(ces, ",\n"))
+	b.WriteString("\n]\n\n")
+	b.WriteString("/-- function names; the index is the function's id (`Access.fnId`, `callEdgesN`) -/\ndef fnNames : List String := [")
+	b.WriteString(quoteAll(fnNames))
+	b.WriteString("]\n\n/-- `callEdges` over ids: (caller, callee, async) -/\ndef callEdgesN : List (Nat × Nat × Bool) := [\n")
+	cnSet := map[string]bool{}
+	for _, c := range allSites {
+		cnSet[fmt.Sprintf("  (%d, %d, %v)", fnID[c.caller], fnID[c.callee], c.async)] = true
+	}
+	var cns []string
+	for e := range cnSet {
+		cns = append(cns, e)
+	}
+	sort.Strings(cns)
+	b.WriteString(strings.Join(cns, ",\n"))
 	b.WriteString("\n]\n\nend TunnelModel.Generated\n")
 	lockEdges = nil
 	return b.String()
@@ -309,6 +389,7 @@ type callSite struct {
 	caller, callee string
 	held           []string
 	async          bool // `go f(...)`: the callee runs on a new goroutine and inherits no lock
+	byName         bool // resolved by method name only (receiver of interface type): used for reachability, not for lock inheritance
 }
 
 var callSites []callSite
@@ -322,7 +403,14 @@ type walker struct {
 	fn      string
 	accs    *[]access
 	defers  []deferEntry // defer stack of the function body being walked
+	async   bool         // walking the body of a `go func() {...}()` literal
 }
+
+// methodsByName: method name -> receiver types declaring it (name-based resolution of calls through interfaces)
+var methodsByName = map[string][]string{}
+
+// packageFuncs: names of the package-level functions
+var packageFuncs = map[string]bool{}
 
 // deferEntry is one `defer` of the function body being walked: a deferred
 // unlock, or a deferred closure (walked when the stack is unwound, LIFO, with
@@ -506,7 +594,14 @@ func (w *walker) stmt(s ast.Stmt, held []string) []string {
 		}
 	case *ast.GoStmt:
 		if fl, ok := t.Call.Fun.(*ast.FuncLit); ok {
+			n := len(callSites)
+			was := w.async
+			w.async = true
 			w.funcLit(fl, nil) // a new goroutine holds nothing
+			w.async = was
+			for i := n; i < len(callSites); i++ {
+				callSites[i].async = true
+			}
 			for _, a := range t.Call.Args {
 				w.expr(a, held, false)
 			}
@@ -676,8 +771,16 @@ func (w *walker) expr(e ast.Expr, held []string, write bool) {
 		}
 		if sel, ok := t.Fun.(*ast.SelectorExpr); ok {
 			if st := w.typeOf(sel.X); st != "" && w.tracked[st] {
-				callSites = append(callSites, callSite{caller: w.fn, callee: st + "." + sel.Sel.Name, held: append([]string{}, held...)})
+				callSites = append(callSites, callSite{caller: w.fn, callee: st + "." + sel.Sel.Name, held: append([]string{}, held...), async: w.async})
+			} else if id, isId := sel.X.(*ast.Ident); !(isId && isPackageName(id.Name) && w.env[id.Name] == "") {
+				// receiver of unknown (interface) type: every method of that name may be the callee
+				for _, rt := range methodsByName[sel.Sel.Name] {
+					callSites = append(callSites, callSite{caller: w.fn, callee: rt + "." + sel.Sel.Name, held: append([]string{}, held...), async: w.async, byName: true})
+				}
 			}
+		}
+		if id, ok := t.Fun.(*ast.Ident); ok && packageFuncs[id.Name] {
+			callSites = append(callSites, callSite{caller: w.fn, callee: id.Name, held: append([]string{}, held...), async: w.async})
 		}
 		if fl, ok := t.Fun.(*ast.FuncLit); ok {
 			w.funcLit(fl, held)
@@ -688,7 +791,7 @@ func (w *walker) expr(e ast.Expr, held []string, write bool) {
 		} else if sel, ok := t.Fun.(*ast.SelectorExpr); ok && w.isFieldSel(sel.X) {
 			// x.f.M(...): a method invoked on the value of a field (e.g. the carrier stream's Send)
 			inner := sel.X.(*ast.SelectorExpr)
-			w.record(inner, false, held, "call")
+			w.recordM(inner, false, held, "call", sel.Sel.Name)
 			w.expr(inner.X, held, false)
 		} else {
 			w.expr(t.Fun, held, false)
@@ -697,8 +800,15 @@ func (w *walker) expr(e ast.Expr, held []string, write bool) {
 			w.expr(a, held, false)
 		}
 	case *ast.FuncLit:
-		// a closure stored for later: called from an unknown context holding nothing
+		// a closure stored for later (a callback): called from an unknown context holding nothing,
+		// not by the function that creates it; its rows are attributed to "<fn>$closure"
+		was, wasAsync := w.fn, w.async
+		if !strings.HasSuffix(w.fn, "$closure") {
+			w.fn += "$closure"
+		}
+		w.async = false
 		w.funcLit(t, nil)
+		w.fn, w.async = was, wasAsync
 	case *ast.UnaryExpr:
 		if t.Op == token.ARROW {
 			if sel, ok := t.X.(*ast.SelectorExpr); ok {
@@ -756,6 +866,10 @@ func (w *walker) isFieldSel(e ast.Expr) bool {
 }
 
 func (w *walker) record(sel ast.Expr, write bool, held []string, how string) {
+	w.recordM(sel, write, held, how, "")
+}
+
+func (w *walker) recordM(sel ast.Expr, write bool, held []string, how, method string) {
 	s, ok := sel.(*ast.SelectorExpr)
 	if !ok {
 		return
@@ -783,7 +897,7 @@ func (w *walker) record(sel ast.Expr, write bool, held []string, how string) {
 		return // a method
 	}
 	*w.accs = append(*w.accs, access{strct: st, field: s.Sel.Name, fn: w.fn, line: w.fset.Position(s.Pos()).Line,
-		write: write, how: how, held: append([]string{}, held...)})
+		write: write, how: how, held: append([]string{}, held...), method: method, async: w.async})
 }
 
 func isPackageName(n string) bool {
